@@ -8,6 +8,9 @@
 //     sequence of 1..=4 shares drawn with repetition from three shares of sharing A and three of sharing B (both
 //     threshold 2, different messages): the result is Err or the message of the sharing of the FIRST share, never
 //     the other one; and it IS that message whenever the first two distinct shares of the sequence belong to it.
+// (3) tamper_first_enum (C05: "alterations of the share that supplies the ciphertext are always rejected"): four shares
+//     of one threshold-2 sharing; every sequence of 2..=4 of them (with repetition) containing two distinct shares,
+//     with one bit of the share VALUE (or of the share POINT) of the FIRST element flipped: recovery must be Err.
 // Prints ENUM-OK <cases> or ENUM-FAIL <case>.
 use sta_rs::*;
 
@@ -104,6 +107,37 @@ fn recover_mixture_enum() {
             println!("ENUM-FAIL sequence {:?} (0-2 = sharing A, 3-5 = sharing B): Err({}) although its first two distinct shares belong to the first share's sharing", idx, e);
             return;
           }
+        }
+      }
+    }
+  }
+  println!("ENUM-OK cases={}", cases);
+}
+
+#[test]
+fn tamper_first_enum() {
+  let m = b"measurement T".to_vec();
+  let pool: Vec<Share> = reports(&m, b"e", 2, &None, 4).iter().map(|b| Message::from_bytes(b).unwrap().share).collect();
+  let mut cases = 0u64;
+  for n in 2usize..=4 {
+    for code in 0..4usize.pow(n as u32) {
+      let mut idx = Vec::with_capacity(n);
+      let mut c = code;
+      for _ in 0..n { idx.push(c % 4); c /= 4; }
+      let mut distinct = idx.clone();
+      distinct.sort();
+      distinct.dedup();
+      if distinct.len() < 2 { continue; }
+      // layout of an encoded share: 4 bytes threshold, 4 bytes length, 24 bytes point, 24 bytes value, ...
+      for (what, off) in [("value", 32usize), ("point", 8usize)] {
+        let mut seq: Vec<Share> = idx.iter().map(|&i| pool[i].clone()).collect();
+        let mut b = seq[0].to_bytes();
+        b[off] ^= 1;
+        seq[0] = match Share::from_bytes(&b) { Some(s) => s, None => continue };
+        cases += 1;
+        if let Ok(c) = share_recover(&seq) {
+          println!("ENUM-FAIL sequence {:?} of one sharing with the share {} of its FIRST element altered: recovery returned Ok ({} message bytes)", idx, what, c.get_message().len());
+          return;
         }
       }
     }
